@@ -25,6 +25,8 @@ structure SCfg where
   inFn : Bool
   out : List String
   funs : List FunDef           -- latest definition first
+  heap : Nat → List Val        -- the elements of slice number `id` (slices are references, as in Go)
+  next : Nat                   -- the number of slices allocated so far
 
 /-- an operand: a value, or a variable still to be read, possibly seen through `itoa` -/
 inductive Opd
@@ -52,6 +54,16 @@ def resolveAll (c : SCfg) : List Opd → Option (List Val)
       match resolve c o, resolveAll c os with
       | some v, some vs => some (v :: vs)
       | _, _ => none
+
+def hset (h : Nat → List Val) (id : Nat) (vs : List Val) : Nat → List Val := fun j => if j = id then vs else h j
+
+/-- the zero value a slice is filled with when an element beyond its end is assigned -/
+def zeroVal (vt : ValueType) : Option Val :=
+  match vt.dt with
+  | .bool => some (.bool false)
+  | .int => some (.int 0)
+  | .string => some (.str "")
+  | _ => none
 
 def lookupFun (fs : List FunDef) (name : String) : Option FunDef :=
   match fs with
@@ -166,6 +178,91 @@ def evalE : Nat → Expr → SCfg → Option (R (List Opd))
           | _, _ => none
       | some (.exit k c1) => some (.exit k c1)
       | none => none
+  -- slices and strings.  A slice literal allocates the next storage number; an element is read when the index
+  -- expression has been evaluated; `len` and the subscripts go by the static type of their operand.
+  | f + 1, .sliceNew _ vals, c =>
+      match evalArgs f vals c with
+      | some (.ok os c1) =>
+          match resolveAll c1 os with
+          | some vs =>
+              if inRange (c1.next + 1) then
+                some (.ok [.lit (.slice (c1.next + 1))] { c1 with heap := hset c1.heap (c1.next + 1) vs, next := c1.next + 1 })
+              else none
+          | none => none
+      | some (.exit k c1) => some (.exit k c1)
+      | none => none
+  | f + 1, .sliceEval value index _, c =>
+      match evalE f value c with
+      | some (.ok [a] c1) =>
+          match evalE f index c1 with
+          | some (.ok [b] c2) =>
+              match resolve c2 a, resolve c2 b with
+              | some (.slice id), some (.int k) =>
+                  match natOf k with
+                  | some i => match (c2.heap id)[i]? with
+                      | some v => some (.ok [.lit v] c2)
+                      | none => none
+                  | none => none
+              | _, _ => none
+          | some (.exit k c2) => some (.exit k c2)
+          | _ => none
+      | some (.exit k c1) => some (.exit k c1)
+      | _ => none
+  | f + 1, .len x, c =>
+      match evalE f x c with
+      | some (.ok [a] c1) =>
+          match resolve c1 a with
+          | some (.str s) => if (Expr.valueType x).isString then some (.ok [.lit (.int s.length)] c1) else none
+          | some (.slice id) => if (Expr.valueType x).isString then none else some (.ok [.lit (.int (c1.heap id).length)] c1)
+          | _ => none
+      | some (.exit k c1) => some (.exit k c1)
+      | _ => none
+  | f + 1, .substr value start none, c =>
+      match evalE f start c with
+      | some (.ok [a] c1) =>
+          match evalE f value c1 with
+          | some (.ok [v] c2) =>
+              match resolve c2 a, resolve c2 v with
+              | some (.int i), some (.str s) =>
+                  match natOf i with
+                  | some n => if n < s.length then some (.ok [.lit (.str (substrOf s n 1))] c2) else none
+                  | none => none
+              | _, _ => none
+          | some (.exit k c2) => some (.exit k c2)
+          | _ => none
+      | some (.exit k c1) => some (.exit k c1)
+      | _ => none
+  | f + 1, .substr value start (some stop), c =>
+      match evalE f start c with
+      | some (.ok [a] c1) =>
+          match evalE f stop c1 with
+          | some (.ok [b] c2) =>
+              match evalE f value c2 with
+              | some (.ok [v] c3) =>
+                  match resolve c3 a, resolve c3 b, resolve c3 v with
+                  | some (.int i), some (.int j), some (.str s) =>
+                      -- `stop` is the index of the last character (the parser has subtracted one)
+                      match natOf i, natOf (j - i + 1) with
+                      | some n, some l => if n + l ≤ s.length then some (.ok [.lit (.str (substrOf s n l))] c3) else none
+                      | _, _ => none
+                  | _, _, _ => none
+              | some (.exit k c3) => some (.exit k c3)
+              | _ => none
+          | some (.exit k c2) => some (.exit k c2)
+          | _ => none
+      | some (.exit k c1) => some (.exit k c1)
+      | _ => none
+  | f + 1, .copy dst src, c =>
+      match evalE f src c with
+      | some (.ok [a] c1) =>
+          match resolve c1 a, readVar c1 dst with
+          | some (.slice sid), some (.slice did) =>
+              if did ≤ c1.next then
+                some (.ok [.lit (.int (c1.heap sid).length)] { c1 with heap := hset c1.heap did (copyInto (c1.heap sid) (c1.heap did)) })
+              else none
+          | _, _ => none
+      | some (.exit k c1) => some (.exit k c1)
+      | _ => none
   | _ + 1, _, _ => none
 /-- first operands of a list of expressions, left to right -/
 def evalArgs : Nat → List Expr → SCfg → Option (R (List Opd))
@@ -241,6 +338,22 @@ def execS : Nat → Stmt → SCfg → Option (SOut × SCfg)
           | none => none
       | some (.exit k c1) => some (.exit k, c1)
       | none => none
+  | f + 1, .sliceAssign x index value, c =>
+      match evalE f index c with
+      | some (.ok [a] c1) =>
+          match evalE f value c1 with
+          | some (.ok [b] c2) =>
+              match resolve c2 a, resolve c2 b, readVar c2 x, zeroVal (Expr.valueType value) with
+              | some (.int k), some w, some (.slice id), some z =>
+                  match natOf k with
+                  | some i =>
+                      if id ≤ c2.next then some (.normal, { c2 with heap := hset c2.heap id (sahSet (c2.heap id) i w z) }) else none
+                  | none => none
+              | _, _, _, _ => none
+          | some (.exit k c2) => some (.exit k, c2)
+          | _ => none
+      | some (.exit k c1) => some (.exit k, c1)
+      | _ => none
   | _ + 1, .funcDef name _ rets params body, c =>
       if c.inFn then none else some (.normal, { c with funs := { name := name, params := params, rets := rets, body := body } :: c.funs })
   | f + 1, .ret vals, c =>
@@ -353,6 +466,12 @@ def fragE (ds : List String) : Expr → Bool
   | .group e => fragE ds e
   | .itoa e => fragE ds e
   | .call name _ args => ds.contains name && fragEs ds args
+  | .sliceNew _ vals => fragEs ds vals
+  | .sliceEval value index _ => fragE ds value && fragE ds index
+  | .len x => fragE ds x
+  | .substr value start none => fragE ds start && fragE ds value
+  | .substr value start (some stop) => fragE ds start && fragE ds stop && fragE ds value
+  | .copy dst src => Tsh.Sem2.goodName2 dst.name && fragE ds src
   | _ => false
 def fragEs (ds : List String) : List Expr → Bool
   | [] => true
@@ -380,6 +499,7 @@ def fragS (ds : List String) : Stmt → Bool
   | .panic e => fragE ds e
   | .ret vals => fragEs ds vals
   | .expr e => isCallE e && fragE ds e
+  | .sliceAssign x index value => Tsh.Sem2.goodName2 x.name && fragE ds index && fragE ds value
   | _ => false
 def fragSs (ds : List String) : List Stmt → Bool
   | [] => true
@@ -400,7 +520,7 @@ def fragP (ds : List String) : List Stmt → Bool
       !ds.contains name && params.all (fun x => Tsh.Sem2.goodName2 x.name) && fragSs ds body && fragP (name :: ds) rest
   | st :: rest => fragS ds st && fragP ds rest
 
-def SCfg.init : SCfg := { genv := fun _ => none, lenv := fun _ => none, inFn := false, out := [], funs := [] }
+def SCfg.init : SCfg := { genv := fun _ => none, lenv := fun _ => none, inFn := false, out := [], funs := [], heap := fun _ => [], next := 0 }
 
 /-- outcome of a whole program: exit status and printed lines -/
 def runProgram (fuel : Nat) (p : Program) : Option (Nat × List String) :=
